@@ -50,8 +50,8 @@ type mergeLoop struct {
 	Lookup  *ssa.Lookup // comma-ok look-up in the body
 	Atoms   []ssa.Value
 	AtomDes []string
-	ResPhi  *ssa.Phi // slice accumulator at the header
-	OkPhi   *ssa.Phi // bool accumulator at the header
+	ResPhi  *ssa.Phi    // slice accumulator at the header
+	OkPhi   *ssa.Phi    // bool accumulator at the header
 	Negated []ssa.Value // atoms whose condition value is the negation of the named atom
 }
 
@@ -142,25 +142,48 @@ func findAccLoops(fn *ssa.Function, classify func(c ssa.Value) string) ([]*merge
 			if !ok {
 				continue
 			}
-			c, _ := normCond(ifi.Cond, true)
-			if seen[c] {
-				continue
+			c0, _ := normCond(ifi.Cond, true)
+			// a condition computed by && / || is evaluated from its edges during the simulation; its leaves are atoms
+			var leaves []ssa.Value
+			var collect func(v ssa.Value, d int)
+			collect = func(v ssa.Value, d int) {
+				v, _ = normCond(v, true)
+				if seen[v] || d > 6 {
+					return
+				}
+				seen[v] = true
+				if ph, isPhi := v.(*ssa.Phi); isPhi {
+					for _, e := range ph.Edges {
+						collect(e, d+1)
+					}
+					return
+				}
+				if _, isK := constBool(v); isK {
+					return
+				}
+				if call, isCall := v.(*ssa.Call); isCall && classify(v) == "" && predicateCallee(call) != nil {
+					// a boolean helper: its leaves (in the caller's terms) are the atoms
+					for _, l := range predicateLeaves(call, func(w ssa.Value) bool { return classify(w) != "" }, 0) {
+						collect(l, d+1)
+					}
+					return
+				}
+				leaves = append(leaves, v)
 			}
-			seen[c] = true
-			if _, isPhi := c.(*ssa.Phi); isPhi {
-				continue // a condition computed by && / ||: evaluated from its edges during the simulation
+			collect(c0, 0)
+			for _, c := range leaves {
+				des := classify(c)
+				if des == "" {
+					return nil, fmt.Sprintf("condition %s in block %d of the loop is not one of the conditions the rule knows", c.Name(), b.Index)
+				}
+				if strings.HasPrefix(des, "!") {
+					// negated form of an atom: register the atom under its positive name with a NOT wrapper handled by sigma below
+					des = des[1:]
+					ml.Negated = append(ml.Negated, c)
+				}
+				ml.Atoms = append(ml.Atoms, c)
+				ml.AtomDes = append(ml.AtomDes, des)
 			}
-			des := classify(c)
-			if des == "" {
-				return nil, fmt.Sprintf("condition %s in block %d of the loop is not one of the conditions the rule knows", c.Name(), b.Index)
-			}
-			if strings.HasPrefix(des, "!") {
-				// negated form of an atom: register the atom under its positive name with a NOT wrapper handled by sigma below
-				des = des[1:]
-				ml.Negated = append(ml.Negated, c)
-			}
-			ml.Atoms = append(ml.Atoms, c)
-			ml.AtomDes = append(ml.AtomDes, des)
 		}
 		loops = append(loops, ml)
 	}
@@ -279,6 +302,18 @@ func (ml *mergeLoop) simulateIteration(sigma map[ssa.Value]bool) iterOutcome {
 						if b, ok := evalC(x.X, d+1); ok {
 							return !b, true
 						}
+					}
+				case *ssa.Call:
+					switch predicate3(x, func(w ssa.Value) bool3 {
+						if b, ok := evalC(w, d+1); ok {
+							return b3(b)
+						}
+						return bUnknown
+					}, 0) {
+					case bTrue:
+						return true, true
+					case bFalse:
+						return false, true
 					}
 				}
 				return false, false
@@ -844,23 +879,28 @@ func deleteStageTable(p *Prog, r *Report, rule string) {
 	wcf := writeCheckFns(p)
 	// the delete stage: the unexported callee of model.UpdateList that receives the data of filterDelete
 	var stage *ssa.Function
-	for _, f := range p.RepoFns("model") {
-		if originName(f) != "UpdateList" || f.Signature.Recv() != nil {
-			continue
-		}
-		forEachCall(f, func(site ssa.CallInstruction) {
-			c, ok := site.(*ssa.Call)
-			if !ok || c.Call.StaticCallee() == nil || isExportedFn(originOf(c.Call.StaticCallee())) {
-				return
+	for _, withData := range []bool{true, false} {
+		for _, f := range p.RepoFns("model") {
+			if originName(f) != "UpdateList" || f.Signature.Recv() != nil || stage != nil && withData == false {
+				continue
 			}
-			for _, a := range c.Call.Args {
-				if strings.Contains(Path(a), "param:filterDelete") || strings.Contains(Path(a), "filterDelete.Data()") {
-					if stage == nil || c.Call.StaticCallee().String() < stage.String() {
-						stage = c.Call.StaticCallee()
+			p.InScope(f, func() {
+				forEachCall(f, func(site ssa.CallInstruction) {
+					c, ok := site.(*ssa.Call)
+					if !ok || c.Call.StaticCallee() == nil || isExportedFn(originOf(c.Call.StaticCallee())) {
+						return
 					}
-				}
-			}
-		})
+					for _, a := range c.Call.Args {
+						pa := Path(a)
+						if withData && strings.Contains(pa, "filterDelete.Data()") || !withData && strings.Contains(pa, "param:filterDelete") {
+							if stage == nil || c.Call.StaticCallee().String() < stage.String() {
+								stage = c.Call.StaticCallee()
+							}
+						}
+					}
+				})
+			})
+		}
 	}
 	if stage == nil || stage.Blocks == nil {
 		r.Undecided(rule, "anchor:delete stage", "", "the stage of model.UpdateList that receives the delete filter's data was not found")
